@@ -113,6 +113,18 @@ def sweeps(tier):
                 if v != fr[pos]:
                     cases.append({'framing': 'ascii', 'uid': 0x11, 'frames': [fr.hex()], 'muts': [['sub', pos, v]], 'cut': ['whole'], 'via_server': False})
     out.append(('ascii-every-single-character-substitution', cases, True))
+    # every single-byte insertion (quick: whitespace / sign / delimiter / hex / extreme bytes; thorough: all 256) and deletion
+    cases = []
+    vals = range(256) if tier == 'thorough' else sorted(set(gens.MUT_BYTES + [0x09, 0x0B, 0x0C, 0x0D, 0x0A, 0x20, 0x7F, 0x80]))
+    for framing in FRAMINGS:
+        for pdu in (lowlrc[:1] + pdus[:2]) if framing == 'ascii' else pdus[:2]:
+            fr = refframe.build(framing, 0x11, pdu, 7, 0)
+            for pos in range(len(fr) + 1):
+                for v in (vals if framing == 'ascii' or tier == 'thorough' else (0x00, 0x7B, 0x7D, 0xFF)):
+                    cases.append({'framing': framing, 'uid': 0x11, 'frames': [(fr[:pos] + bytes([v]) + fr[pos:]).hex()], 'muts': [], 'cut': ['whole'], 'via_server': False})
+            for pos in range(len(fr)):
+                cases.append({'framing': framing, 'uid': 0x11, 'frames': [(fr[:pos] + fr[pos + 1:]).hex()], 'muts': [], 'cut': ['whole'], 'via_server': False})
+    out.append(('every-single-byte-insertion-and-deletion', cases, tier == 'thorough'))
     return out
 
 
